@@ -812,3 +812,19 @@ mutant_on('sa/benign/R6.diff', 'R6+designator-test-dropped', ['C13'], [
 mutant_on('sa/benign/R6.diff', 'R6+guard-arms-swapped', ['C12'], [
     ('src/delegated_safety/instructions.rs', "        Some(_) => Err(InstructionResult::NotActivated),\n        None => contract::create::<IS_CREATE2, WIRE, H>(context),", "        None => Err(InstructionResult::NotActivated),\n        Some(_) => contract::create::<IS_CREATE2, WIRE, H>(context),"),
 ], ['|Q1|'])
+
+# renamed private methods (rewind_validation_to -> rewind_validation_cursor_to, lock_finality_candidate ->
+# try_lock_next_final): the rename is recognised and canonicalised (sa/py/aliases.py), so nothing fires, and a
+# defect inside / around the renamed functions is still reported
+benign('B-rename-RN1', ALLP, [], patch='sa/benign/RN1.diff')
+mutant_on('sa/benign/RN1.diff', 'RN1+rewind-uses-second-tick', ['C15'], [
+    (CX, "self.lower_timestamps[index].fetch_max(timestamp, Ordering::AcqRel);", "let _ = timestamp;\n        self.lower_timestamps[index].fetch_max(self.logical_clock.load(Ordering::Acquire), Ordering::AcqRel);"),
+], ['|U2|'])
+mutant_on('sa/benign/RN1.diff', 'RN1+validate-conflict-without-rewind', ['C02'], [
+    (S, "            self.scheduler_ctx.rewind_validation_cursor_to(txid + 1);\n            TransactionStatus::Conflict", "            TransactionStatus::Conflict"),
+], ['|N'])
+# a renamed private field (SchedulerContext.lower_timestamps -> validated_floor_ts)
+benign('B-rename-RN2-field', ALLP, [], patch='sa/benign/RN2.diff')
+mutant_on('sa/benign/RN2.diff', 'RN2+rewind-uses-second-tick', ['C15'], [
+    (CX, "self.validated_floor_ts[index].fetch_max(timestamp, Ordering::AcqRel);", "let _ = timestamp;\n        self.validated_floor_ts[index].fetch_max(self.logical_clock.load(Ordering::Acquire), Ordering::AcqRel);"),
+], ['|U2|'])
